@@ -485,6 +485,39 @@ fn generate(rng: &mut Rng, tier: Tier, cases: &mut Vec<Case>) {
         let co = rand_dec_coords(rng, k, true);
         cases.push(render_ddsg(rng, n, &arcs, &co, true).into_case("ddsg-wide"));
     }
+    // --- re-run onto existing, longer output files (`PRE k`): every format, small conversions
+    for i in 0..20 * scale {
+        let k = *rng.pick(&[40usize, 300, 70]);
+        let mut case = match i % 3 {
+            0 => {
+                let m = 2 + rng.below(3) as usize;
+                let arcs = rand_arcs(rng, 9, m, true, 20, &[1]);
+                let co: Vec<(i64, i64)> = (0..3).map(|_| rand_i32_coord(rng, true)).collect();
+                render_dimacs(rng, 9, &arcs, &co, false, 1).into_case("rerun")
+            }
+            1 => {
+                let m = 2 + rng.below(3) as usize;
+                let arcs = rand_arcs(rng, 9, m, true, 20, &[0, 1, 2, 3]);
+                let co = rand_dec_coords(rng, 3, true);
+                render_ddsg(rng, 9, &arcs, &co, false).into_case("rerun")
+            }
+            _ => {
+                let adj = metis_adj(rng, 6, 6, 1, 3, 2, true);
+                let co = rand_dec_coords(rng, 4, false);
+                render_metis(rng, 6, &adj, &co, false).into_case("rerun")
+            }
+        };
+        case.ops.insert(1, format!("PRE {k}"));
+        cases.push(case);
+    }
+    // --- both tiers: a parametrised METIS pair with more than 65 536 edges and coordinates (84 300 / 70 000), and
+    // one whose decoded edge list crosses 64 MiB (3 000 000 edges)
+    for params in ["70000 300 140 70000", "4000 3000 500 3000"] {
+        let mut c = Case::new("huge");
+        c.op("F metis eol=lf final=1");
+        c.op(format!("HUGE metis-ring {params}"));
+        cases.push(c);
+    }
     // --- thorough only: vectors longer than 65535 elements (5-byte length prefix), a METIS file with 66000 lines
     if tier == Tier::Thorough {
         let arcs = rand_arcs(rng, 70000, 66000, true, 20, &[1]);
@@ -498,7 +531,7 @@ fn generate(rng: &mut Rng, tier: Tier, cases: &mut Vec<Case>) {
         cases.push(render_metis(rng, 66000, &adj, &co, false).into_case("metis-huge"));
         // files whose decoded size crosses 64 MiB (2 796 203 InputEdge<usize> of 24 bytes; 8 388 608 FPCoordinate
         // of 8 bytes): 3 000 000 edges over ids <= 4000; 8 400 000 coordinates
-        for params in ["4000 3000 500 3000", "8400000 10 2 8400000"] {
+        for params in ["8400000 10 2 8400000"] {
             let mut c = Case::new("huge");
             c.op("F metis eol=lf final=1");
             c.op(format!("HUGE metis-ring {params}"));
@@ -669,6 +702,26 @@ fn execute(case: &Case, obs: &mut Vec<String>) {
     let cout = format!("{cpath}.toolbox");
     let _ = std::fs::remove_file(&gout);
     let _ = std::fs::remove_file(&cout);
+    // `PRE k`: a previous conversion of an unrelated, larger input left its files at the same output paths
+    for op in &case.ops {
+        if let Some(k) = op.strip_prefix("PRE ").and_then(|t| t.trim().parse::<usize>().ok()) {
+            let mut gs = format!("p sp {} {}\n", k + 1, k);
+            for i in 0..k {
+                gs.push_str(&format!("a {} {} {}\n", i + 1, (i * 7 + 3) % (k + 1) + 1, 1000 + i));
+            }
+            let mut cs = format!("p aux sp co {}\n", k);
+            for i in 0..k {
+                cs.push_str(&format!("v {} {} {}\n", i + 1, 1000000 + 17 * i as i64, 2000000 - 13 * i as i64));
+            }
+            std::fs::write(&gpath, gs).unwrap();
+            std::fs::write(&cpath, cs).unwrap();
+            let rc = run_plier("dimacs", &gpath, &cpath);
+            if rc != "0" {
+                obs.push(format!("D pre-run rc={rc}"));
+                return;
+            }
+        }
+    }
     let eol = if crlf { "\r\n" } else { "\n" };
     let write = |path: &str, lines: &[&str]| {
         let mut s = String::new();
